@@ -12,8 +12,10 @@ LEVEL_NOTE = "thin claim: necessary structural conditions; the known C03 defects
 
 
 def run(ctx):
-    g_sync.run_all(ctx, ["Y1:atomic", "Y3", "Y4"])
+    g_sync.run_all(ctx, ["Y1:atomic", "Y3", "Y4", "O5"])
     from . import atomics
     atomics.M1(ctx)
     atomics.M2(ctx)
     atomics.M3(ctx)
+    atomics.M4(ctx)
+    atomics.M5(ctx)
